@@ -423,6 +423,9 @@ def scn_mesh_data(c, edges, fill='int_fill', si=1):
         c.check('face_node: no _FillValue attribute next to the _FillValue encoding', '_FillValue' not in vo.attrs and vo.encoding.get('_FillValue') is not None)
         c.check('face_node: saved with the integer type of the input', vo.encoding.get('dtype') is not None and getattr(vo.encoding.get('dtype'), 'kind', None) == 'i')
         got = vo.arr.fn((kf, j))
+        c.check('face_node: entries are renumbered indexes with missing entries (masked-integer representation)', isinstance(got, SFloat))
+        if not isinstance(got, SFloat):
+            raise PathEnd()
         present = mk_bool(zint(j) < zint(info['mesh_count'](f_old)))
         selN = sels['node'][1]
         c.check('face_node: row k lists the nodes of the k-th selected face -- an entry is missing exactly where the face has no such node',
@@ -433,6 +436,9 @@ def scn_mesh_data(c, edges, fill='int_fill', si=1):
         vo = out._vars['edge_node']
         c.check('edge_node: dimension order and start_index kept', vo.dims == before['edge_node'][0] and vo.attrs.get('start_index') == before['edge_node'][2].get('start_index'))
         got = vo.arr.fn((ke, bcol))
+        c.check('edge_node: entries are renumbered indexes (masked-integer representation)', isinstance(got, SFloat))
+        if not isinstance(got, SFloat):
+            raise PathEnd()
         c.check('edge_node: row k lists the NEW indexes of the nodes of the k-th selected edge',
                 s_and(got.is_fin(), s_eq(got.val, sels['node'][1].rank(enode) + si)))
         c.check('edge_node: saved as an integer table', getattr(vo.encoding.get('dtype'), 'kind', None) == 'i')
